@@ -995,8 +995,38 @@ def check_olc(pid, tier, seed):
     # every fourth worker (offset 2, 3 alternating shapes) runs the NDEBUG build
     plans = [(["--exe", exe_nd] + pl) if i % 8 in (2, 5) else pl for i, pl in enumerate(plans)]
     run_sched_workers(pid, exe, plans, outdir, res)
+    fault_part = None
+    if pid == "C14":
+        # "additionally every allocation-failure point of C08 on the OLC index": the sequential harness runs its
+        # fault loops on the two olc configurations; here only a lock left held (a spin-wait reached
+        # single-threaded after a failed operation) counts
+        seq_exe = build("seq")
+        fdir = os.path.join(outdir, "faults")
+        os.makedirs(fdir)
+        per = 1500 if tier == "quick" else 40000
+        fcmds = [[seq_exe, "--prop", "C14", "--cfgs", "2,5", "--seed", str(seed * 1000 + 900 + i), "--cases", str(per),
+                  "--size", "60", "--out", os.path.join(fdir, f"stats{i}.json"), "--fail-dir", fdir] for i in range(4)]
+        for c, rc, out, err in run_parallel(fcmds, timeout=3 * 3600):
+            if rc == 1 and "FAILURE " in out:
+                line = [l for l in out.splitlines() if l.startswith("FAILURE ")][0]
+                path = line.split()[1]
+                msg = line.split("::", 1)[1].strip() if "::" in line else ""
+                if confirm_replay(seq_exe, ["--prop", "C14"], path):
+                    fd = os.path.join(FOUND, pid, "found")
+                    os.makedirs(fd, exist_ok=True)
+                    dst = os.path.join(fd, os.path.basename(path))
+                    shutil.copy(path, dst)
+                    with open(dst, "a") as f:
+                        f.write("# engine: seq (replay with: seq --prop C14 --replay FILE)\n")
+                    res.violations.append((dst, "after an injected allocation failure on olc_db: " + msg))
+        fc, fd_, fs = merge_stats([os.path.join(fdir, f"stats{i}.json") for i in range(4)])
+        fault_part = {"histories": fc.get("cases", 0), "injected_faults_on_olc_db": fc.get("faults", 0),
+                      "of_which_at_2nd_or_later_allocation": fc.get("faults_k2plus", 0),
+                      "oracle": "the single-threaded harness treats any spin-wait as a lock left held"}
     counters, distinct, samples = merge_stats(sched_stats_files(outdir, len(plans)))
     cov = sched_coverage(pid, counters, distinct, samples, OLC_RULES[pid], res, nrep)
+    if fault_part is not None:
+        cov["allocation_failure_points_on_olc_db"] = fault_part
     cov["harness_builds"] = "12 workers: assertions+ASan+UBSan+stats; 4 workers: NDEBUG+ASan+UBSan+stats"
     cov["preemption_bound"] = "1-2 (quick), 2 (thorough), capped per program (see programs_dfs_capped)"
     write_evidence(pid, tier, seed, "exploration", cov, time.time() - t0, len(res.violations),
@@ -1441,8 +1471,13 @@ def main():
     if a.replay:
         tgt, argf = REPLAY[a.prop]
         with open(a.replay) as f:
-            if "harness build olc_nd" in f.read():
+            content = f.read()
+            if "harness build olc_nd" in content:
                 tgt = "olc_nd"
+            if "# engine: seq" in content:
+                tgt, argf = "seq", (lambda pid: ["--prop", pid])
+            if "# engine: qsbr_fault" in content:
+                tgt, argf = "qsbr_fault", (lambda pid: [])
         exe = build(tgt)
         args = argf(a.prop)
         with open(a.replay) as f:
